@@ -19,6 +19,7 @@ from .. import dirrun, encode, project, seams
 ID = 'C10'
 LEVEL = 'model_checking'
 TRACE = 'trace/Trace_Dir'
+PROCESS_EVERY = 5         # every fifth case runs the command line as a real process (seams.PROC_VARIANTS)
 RULE = ('case = one (directory, query): --plid / --bmc-id / --id / --src / --src-exclude in one of its spellings on a '
         'directory of 3-14 PELs with colliding ids incl. hidden and non-serviceable ones; non-trivial = the match set is '
         'neither empty nor the whole directory, or the matched PEL is hidden / non-serviceable; distinct = by '
@@ -52,11 +53,16 @@ def run_case(case):
     else:
         import pel.peltool.src as _src
         _src.registry.pels = []
-    d = os.path.join(seams.scratch_dir('c10'), 'dir')
     n = rng.randint(3, 14)
     eids = rng.sample([0x50000001, 0x50000011, 0x50000101, 0x5000001A, 0x500000A1, 0x00001234, 0x0ABCDEF0,
                        0x51234567, 0x5123456A, 0x90000001, 0xFFFFFFFE, 0x00000012, 0x12340000, 0x50001234,
                        0x5000ABCD, 0x0000ABCD], n)
+    # the PATH of the directory is not the name of a file in it: ids and reference codes in the path (a case
+    # directory named after a log, say) match nothing
+    top = os.path.join(seams.scratch_dir('c10'), 't')
+    shutil.rmtree(top, ignore_errors=True)
+    d = os.path.join(top, rng.choice(['dir', 'dir', 'case_%08X' % rng.choice(eids + [0x5EEEEEEE, 0x00001235]),
+                                      '%08X' % rng.choice(eids + [0x5EEEEEEE]), 'BD8D1001_logs']))
     files, fattrs = [], []
     for e in eids:
         pel = dirrun.mk_pel(rng, e, plid=rng.choice(PLIDS + [e]), bmc=rng.choice(BMCS), ref=rng.choice(dirrun.REFS + dirrun.REFS + dirrun.REFS_LONG),
